@@ -58,6 +58,25 @@ def cases(draw, tier):
                            max_arity=4, styles=('plain', 'digits', 'mixed'), max_outputs=5,
                            dup_rate=draw(st.sampled_from([0, 2, 4])), const_operands=(0, 0, 2),
                            sinks_as_outputs=draw(st.booleans())))
+    if nl['gates'] and draw(st.integers(0, 2)) == 0:
+        # a chain of 2-7 unary (or pseudo-unary) gates on top of some gate, tapped here and there by outputs: what
+        # MergeUnaryOperators is about (parity of the chain, links between non-adjacent members)
+        labs = [g[0] for g in nl['gates']]
+        unary = sorted({t for t in types if t in ('NOT', 'IFF', 'LNOT', 'RNOT', 'LIFF', 'RIFF')}) or ['NOT']
+        prev = labs[draw(st.integers(0, len(labs) - 1))]
+        other = labs[draw(st.integers(0, len(labs) - 1))]
+        gates, outs = [list(g) for g in nl['gates']], list(nl['outputs'])
+        for i in range(draw(st.integers(2, 7))):
+            t = draw(st.sampled_from(unary))
+            lab = f'chain_{i}'
+            while lab in labs:
+                lab += '_'
+            gates.append([lab, t, [prev] if t in ('NOT', 'IFF') else ([prev, other] if t[0] == 'L' else [other, prev])])
+            if draw(st.integers(0, 3)) == 0:
+                outs.append(lab)
+            prev = lab
+        outs.append(prev)
+        nl = dict(nl, gates=gates, outputs=outs)
     return {'nl': nl, 'route': draw(gen.routes(nl)), 'spec': spec, 'reuse_instance': draw(st.booleans())}
 
 
